@@ -112,7 +112,7 @@ class SimExecutor:
         pol = kernel.policy.get("kind")
         if pol == "inline":
             n = len(kernel.heap)
-        elif pol in ("fifo", "lifo"):
+        elif pol in ("fifo", "lifo", "pick"):
             n = 0
         else:
             n = 0
